@@ -2,9 +2,9 @@ open Model
 open Fpmodel
 (* validate <cls> <input tokens>  ->  "<OUTCOME> <in_domain 0/1>"
    input tokens (see harness/engines/c19.py:tokens):
-     nodes_str:list bool, n_edges, acyclic, has_source, has_sink, src_fooled, snk_fooled, origin(0 edge,1 node,2 other),
+     nodes_str:list bool, n_edges, acyclic, has_source, has_sink, origin(0 edge,1 node,2 other),
      wtype(0 int,1 float,2 other), elems:list (w(0 pos,1 zero,2 neg,3 missing) ign), conserving,
-     k:(0 z | 1 num den), cons:list (is_list greedy_ok items:list (kind in_graph)), cov:(num den),
+     k:(0 z | 1 num den), cons:list (is_list items:list (kind in_graph)), cov:(num den),
      starts:list bool, ends:list bool, ign:list (kind in_graph), search_enters *)
 let cls_of_int = function
   | 0 -> CstDAG | 1 -> CstDiGraph | 2 -> CNodeExpandedDiGraph | 3 -> CkFlowDecomp | 4 -> CMinFlowDecomp
@@ -13,28 +13,26 @@ let cls_of_int = function
   | 13 -> CkPathCoverCycles | 14 -> CMinPathCoverCycles | 15 -> CMinErrorFlow | _ -> failwith "class id"
 let kind_of_int = function 0 -> IStr | 1 -> IPair | 2 -> ITriple | 3 -> IInt | _ -> failwith "item kind"
 let next_item () = let kd = kind_of_int (next ()) in let g = next_bool () in { it_kind = kd; it_in_graph = g }
-let s_exn = function EUnboundLocal -> "UnboundLocalError" | EType -> "TypeError" | EKey -> "KeyError" | EIndex -> "IndexError"
-  | EOverflow -> "OverflowError" | ECrash -> "Crash" | ESolverAPI -> "Exception"
+let s_exn = function EType -> "TypeError" | EOverflow -> "OverflowError" | ESolverAPI -> "Exception"
 let () = register "validate" (fun () ->
   let c = cls_of_int (next ()) in
   let nodes_str = next_list next_bool in
   let n_edges = next_nat () in
   let acyclic = next_bool () in let has_source = next_bool () in let has_sink = next_bool () in
-  let src_fooled = next_bool () in let snk_fooled = next_bool () in
   let origin = (match next () with 0 -> OEdge | 1 -> ONode | _ -> OOther) in
   let wtype = (match next () with 0 -> TInt | 1 -> TFloat | _ -> TOther) in
   let elems = next_list (fun () -> let w = (match next () with 0 -> WPos | 1 -> WZero | 2 -> WNeg | _ -> WMissing) in
                                    let g = next_bool () in { e_w = w; e_ign = g }) in
   let conserving = next_bool () in
   let k = (match next () with 0 -> KInt (next_z ()) | _ -> KNonInt (next_q ())) in
-  let cons = next_list (fun () -> let l = next_bool () in let g = next_bool () in let its = next_list next_item in
-                                  { c_is_list = l; c_items = its; c_greedy_ok = g }) in
+  let cons = next_list (fun () -> let l = next_bool () in let its = next_list next_item in
+                                  { c_is_list = l; c_items = its }) in
   let cov = next_q () in
   let starts = next_list next_bool in let ends = next_list next_bool in
   let ign = next_list next_item in
   let search_enters = next_bool () in
   let i = { nodes_str = nodes_str; n_edges = n_edges; acyclic = acyclic; has_source = has_source; has_sink = has_sink;
-            src_fooled = src_fooled; snk_fooled = snk_fooled; origin = origin; wtype = wtype; elems = elems;
+            origin = origin; wtype = wtype; elems = elems;
             conserving = conserving; k = k; cons = cons; cov = cov; starts = starts; ends = ends; ign = ign;
             search_enters = search_enters } in
   let o = (match validate c i with
